@@ -18,8 +18,29 @@ def series_val(t, r):
     return ufun("series.val", U(), I_, U())(t, r)
 
 
+def series_num(t, r):
+    """the numeric value of row r of a (numeric) Series"""
+    return ufun("series.num", U(), I_, z3.RealSort())(t, r)
+
+
+def series_as_array(x):
+    """np.asarray(series) / series.values for numeric data: a vector of the row values (a view: not fresh)"""
+    t = x.t
+    return SArr(1, series_len(t), z3.IntVal(1), lambda i, j: series_num(t, i), "num", False)
+
+
 class SSeries(SOpaque):
     """A pandas Series: comparisons are elementwise over its rows."""
+
+    def isinstance(self, I, c):
+        import numpy as np
+        import pandas as pd
+        if c is pd.Series or c is object:
+            return True
+        if c is np.ndarray:
+            return False
+        from .opaque import o_isinstance
+        return o_isinstance(self, I, c)
 
     def cmpop(self, I, op, other, refl):
         if I.ctx.spec_mode or op not in ("==", "!="):
@@ -34,7 +55,7 @@ class SSeries(SOpaque):
 
     def getattr(self, I, attr, node):
         if attr == "values":
-            return self
+            return self if getattr(I.reg, "series_values_opaque", True) and not getattr(self, "numeric_view", False) else series_as_array(self)
         from .opaque import o_getattr
         from .interp import BoundMethod
         return BoundMethod(self, attr)
